@@ -80,8 +80,7 @@ Section RelabelFacts.
     relabel_mutations es new_parent new_child order mpos mnode M insq remq = Some out ->
     length out = M /\ forall m, (m < M)%nat -> back (nth m out (-1)) (mnode m).
   Proof. intros insq remq out H. unfold relabel_mutations in H.
-    destruct (rev remq) as [|last _]; [discriminate|].
-    set (seqlen := eright (edge_at es last)) in *.
+    set (seqlen := relabel_seqlen es remq) in *.
     destruct (loop rl_state _ _ seqlen rl_rmv (rl_ins new_parent new_child order) (rl_after mpos mnode)
                    (fun _ => false) (cond_lt seqlen) (sweep_fuel insq remq) 0 insq remq
                    (mkRL (fun u => Z.of_nat u) (fun _ => -1) (seq 0 M))) as [s|] eqn:El; [|discriminate].
@@ -120,4 +119,11 @@ Lemma C29_example :
   valid_tablesb 10 ex29_edges [0; 2; 4; 5; 1; 3]%nat [0; 2; 4; 5; 1; 3]%nat = true /\
   split_disjoint_nodes ex29_edges ex29_smp ex29_muts [0; 2; 4; 5; 1; 3]%nat [0; 2; 4; 5; 1; 3]%nat
     = Some ([3; 5; 3; 5; 4; 4], [0; 0; 1; 1; 0; 1], [0; 1; 2; 3; 4; 3]%nat, [3%nat], [3; 3; 5; 0]).
+Proof. vm_compute. repeat split. Qed.
+
+(** regression example for the repaired defect S2 (fix 3af34f9): a valid table WITHOUT edges is an
+    ordinary input -- nothing is split and every mutation keeps its node *)
+Lemma C29_no_edges_example :
+  valid_tablesb 10 [] [] [] = true /\
+  split_disjoint_nodes [] [true; true] [(3, 0%nat)] [] [] = Some ([], [], [0; 1]%nat, [], [0]).
 Proof. vm_compute. repeat split. Qed.
